@@ -174,8 +174,10 @@ class Path(typing.Generic[H]):
 
     def is_relative_to(self, *other: Any) -> bool:
         # Not using `self._path.is_relative_to()` because this only exists in Python 3.9+.
+        # Check the hosts outside the `try`: WrongHostError is a ValueError, too.
+        args = self._prepare_args_list(other)
         try:
-            self.relative_to(*other)
+            self._path.relative_to(*args)
             return True
         except ValueError:
             return False
